@@ -516,7 +516,25 @@ func genWorldPlan(prop string, master uint64, run int) Plan {
 		}
 		kw := []int{12, r.Range(0, 3), r.Range(0, 3), r.Range(0, 2), r.Range(0, 1)} // mutate, SetSearch, read, getsp, observer
 		iter := r.Chance(1, 2)
+		// copies: the owning URL is cloned somewhere in the history; each copy's list is a list of its
+		// own from then on (it starts as a copy of the source's list), and operations go on through
+		// handles of either
+		copies := r.Chance(1, 5)
 		for i := 0; i < n; i++ {
+			if copies && r.Chance(1, 6) {
+				if len(b.urls) < 2 || r.Chance(1, 2) {
+					c := b.clone(u)
+					if r.Chance(1, 2) {
+						u = c
+					}
+					if r.Chance(2, 3) {
+						b.getsp(c)
+					}
+				} else {
+					u = b.pickU()
+				}
+				continue
+			}
 			switch r.Weighted(kw) {
 			case 0:
 				if s := b.pickS(); s != 0 {
@@ -589,7 +607,26 @@ func genWorldPlan(prop string, master uint64, run int) Plan {
 		if r.Chance(1, 6) {
 			pokes = r.Range(1, 2) // pairs kept from an Iterate callback are written to later
 		}
+		// copies: the URL is cloned somewhere in the history and the history goes on, on either copy,
+		// through handles of either. A copy of a URL is a URL: each of them, taken by itself, must keep
+		// describing one query with its own list, whatever is done to the other (a list, pair or query
+		// string shared between the copies shows as a list changing under a query that nobody wrote).
+		copies := kw[5] == 0 && r.Chance(1, 4)
 		for i := 0; i < n; i++ {
+			if copies && r.Chance(1, 6) {
+				if len(b.urls) < 2 || r.Chance(1, 2) {
+					c := b.clone(u)
+					if r.Chance(1, 2) {
+						u = c
+					}
+					if r.Chance(1, 2) {
+						b.getsp(c)
+					}
+				} else {
+					u = b.pickU()
+				}
+				continue
+			}
 			if pokes > 0 && r.Intn(10) < pokes {
 				if s := b.pickS(); s != 0 {
 					op := Op{K: "sp.poke", P: 1, H: s, W: r.Intn(4), A: QS(b.g.pick([]string{"x", "1", "&", " ", "%41", "é"}))}
